@@ -316,15 +316,29 @@ Definition commit_batch (v : variant) (F S : dir) (names : list positive) (w : d
   end.
 
 (* ---------- installTrueTypeCollectionMembers (install.go:1442) ---------- *)
-Inductive member := MValid (n : positive) (data : bytes) | MInvalid.
+(* a member that parses: its RAW PostScript name (name table), the file name n it is staged and committed
+   under = sanitize.Path(raw) (installTrueTypeRep, install.go:1259: sanitise, THEN reserve, THEN writeGob), its
+   representation; or a member that does not parse *)
+Inductive member := MValid (raw n : positive) (data : bytes) | MInvalid.
+
+(* the staging decision alone: accept, or reject at member k (0-based) because it does not parse / because its
+   SANITISED name was already reserved by an earlier member *)
+Inductive decision := Accept | RejInvalid (k : nat) | RejDup (k : nat).
+Fixpoint stage_decide (ms : list member) (seen : list positive) (k : nat) : decision :=
+  match ms with
+  | [] => Accept
+  | MInvalid :: _ => RejInvalid k
+  | MValid _ n _ :: ms' => if bool_decide (n ∈ seen) then RejDup k else stage_decide ms' (n :: seen) (S k)
+  end.
+Definition member_target (m : member) : list positive := match m with MValid _ n _ => [n] | MInvalid => [] end.
 
 Fixpoint stage_members (S : dir) (ms : list member) (seen : list positive) (w : dworld)
   : oerr * list positive * dworld :=
   match ms with
   | [] => (None, rev seen, w)
   | MInvalid :: _ => (Some [], rev seen, w)                   (* parse error of member i *)
-  | MValid n data :: ms' =>
-    if bool_decide (n ∈ seen) then (Some [], rev seen, w)     (* ErrDuplicatePostScriptName *)
+  | MValid _ n data :: ms' =>
+    if bool_decide (n ∈ seen) then (Some [], rev seen, w)     (* ErrDuplicatePostScriptName: reserve(sanitised name) *)
     else match write_gob S n data w with
          | (Some m, _, w1) => (Some m, rev seen, w1)
          | (None, _, w1) => stage_members S ms' (n :: seen) w1
@@ -570,5 +584,6 @@ Definition run_fonts (f1 f2 : option nat) (init : tree) (F : dir) (sc : dcontent
   install_fonts (plan2 f1 f2) fresh_child F sc junk stage_ok names reload_ok (w_init init).
 Definition run_cheat (f1 f2 : option nat) (init : tree) (F : dir) (sc : dcontent) (stage_ok : bool) (names : list positive) :=
   cheat_batch (plan2 f1 f2) fresh_child F sc stage_ok names (w_init init).
+Definition run_decide (ms : list member) : decision := stage_decide ms [] 0.
 Definition run_certs (f1 f2 : option nat) (bound : positive) (init : tree) (C : dir) (imps : list (positive * bytes * bool)) :=
   publish_certs (plan2 f1 f2) (fresh_name bound) C imps (w_init init).
